@@ -24,16 +24,20 @@ namespace c08
       Sys s;
       gen_pattern(c.rng, s, maxn, T::bs, edge);
       gen_values(c.rng, s);
-      const bool unit = c.rng.coin(p_unit);
-      gen_filter(c.rng, s, unit);
+      // filter kind: mean filter (filter_cor != filter_def) in 25% of the cases, otherwise unit with probability p_unit
+      const bool mean = c.rng.coin(0.25);
+      const bool unit = !mean && c.rng.coin(p_unit);
+      if(mean) gen_mean_filter(c.rng, s, std::is_same<typename T::DT, float>::value); else gen_filter(c.rng, s, unit);
       c.tag(std::string("mat:") + T::name());
       c.tag(T::bs > 1 ? "blocked" : "scalar");
       c.tag(std::string("dt:") + vl::dt_name<typename T::DT>());
-      c.tag(unit ? "filter:unit" : "filter:none");
+      c.tag(mean ? "filter:mean" : (unit ? "filter:unit" : "filter:none"));
+      if(mean) c.tag(s.mstyle == 0 ? "meanv:prim-one" : (s.mstyle == 1 ? "meanv:fewbit" : "meanv:arbitrary"));
       size_tags(c, s);
       if(edge >= 0) c.tag("edge_corpus");
       MT_ m = make_matrix<MT_>(s);
-      if(unit) { auto f = T::make_unit(s, c.rng); body(s, m, f); }
+      if(mean) { auto f = T::make_mean(s); body(s, m, f); }
+      else if(unit) { auto f = T::make_unit(s, c.rng); body(s, m, f); }
       else { auto f = T::make_none(s); body(s, m, f); }
     }
     pg.check();
